@@ -156,6 +156,35 @@ def extract(src):
     out["unguarded_writes"] = sorted(set(unguarded))
     reads = re.findall(r"options\.verbose", src[src.index("constexpr std::optional<root_value_type> context_parse(Context&& ctx, parse_options options"):src.index("struct no_parser{}")])
     out["verbose_reads_not_guard"] = len(re.findall(r"(?<!if \()ps\.options\.verbose(?!\))", drv))
+    # namespace stdex: word layout and guards of cbitset, guards of cvector / cqueue, the bubble sort's swap test (Model/Containers.v)
+    cb = src[src.index("class cbitset"):src.index("struct is_cqueue_compatible")]
+    m = need(r"using underlying_type = std::uint(\d+)_t;", cb, "cbitset underlying_type")
+    need(r"static const size_type underlying_size = sizeof\(underlying_type\) \* 8;", cb, "cbitset underlying_size")
+    out["cb_word_bits"] = int(m.group(1))
+    need(r"underlying_count = \(N / underlying_size\) \+ \(\(N % underlying_size\) \? 1 : 0\);", cb, "cbitset underlying_count")
+    forms = [("set", r"data\[idx / underlying_size\] \|= \(underlying_type\(1\) << \(idx % underlying_size\)\);"),
+             ("set value", r"data\[idx / underlying_size\] \^= \(-!!value \^ data\[idx / underlying_size\]\) & \(underlying_type\(1\) << \(idx % underlying_size\)\);"),
+             ("reset", r"data\[idx / underlying_size\] &= ~\(underlying_type\(1\) << \(idx % underlying_size\)\);"),
+             ("flip", r"data\[idx / underlying_size\] \^= \(underlying_type\(1\) << \(idx % underlying_size\)\);"),
+             ("test", r"return \(data\[idx / underlying_size\] >> \(idx % underlying_size\)\) & underlying_type\(1\);"),
+             ("flip all", r"for \(auto& d : data\)\s*d = ~d;"), ("set all", r"for \(auto& d : data\)\s*d = underlying_type\(-1\);"),
+             ("reset all", r"for \(auto& d : data\)\s*d = underlying_type\(0\);"),
+             ("add", r"for \(auto i = 0u; i < underlying_count; \+\+i\)\s*data\[i\] \|= other\.data\[i\];"),
+             ("check_idx", r"if \(idx >= N\)\s*throw std::runtime_error")]
+    for name, pat in forms: need(pat, cb, "cbitset " + name)
+    out["cb_check_idx_calls"] = len(re.findall(r"check_idx\(idx\);", cb))
+    cv = src[src.index("class cvector<T, N"):src.index("class cbitset")]
+    need(r"constexpr void push_back\(const T& v\) \{ check_not_full\(\); the_data\[current_size\+\+\] = v; \}", cv, "cvector push_back")
+    need(r"constexpr void emplace_back\(T&& v\) \{ check_not_full\(\); the_data\[current_size\+\+\] = std::move\(v\); \}", cv, "cvector emplace_back")
+    need(r"if \(current_size >= N\)\s*throw std::runtime_error", cv, "cvector check_not_full")
+    need(r"constexpr void pop_back\(\) \{ current_size--; \}", cv, "cvector pop_back")
+    need(r"auto from = first < begin\(\) \? begin\(\) : first;\s*auto to = last > end\(\) \? end\(\) : last;\s*size_type diff = to - from;", cv, "cvector erase")
+    cq = src[src.index("class cqueue<T, N"):src.index("constexpr Container& sort(")]
+    need(r"if \(size_ >= N\)\s*throw std::runtime_error\(\"Pushing out of range\"\);\s*data\[end\+\+\] = v;\s*if \(end == N\)\s*end = 0;\s*size_\+\+;", cq, "cqueue push")
+    need(r"if \(empty\(\)\)\s*throw std::runtime_error\(\"Pop on empty\"\);\s*start\+\+;\s*if \(start == N\)\s*start = 0;\s*size_--;", cq, "cqueue pop")
+    so = src[src.index("constexpr Container& sort("):src.index("namespace utils")]
+    need(r"for \(auto i = 0u; i < std::size\(c\) - 1; i\+\+\)\s*\{\s*if \(p\(c\[i \+ 1\], c\[i\]\)\)", so, "stdex sort swap test")
+    need(r"stdex::sort\(gi\.rule_infos, \[\]\(const auto& ri1, const auto& ri2\) \{ return ri1\.l_idx < ri2\.l_idx; \}\);", src, "stdex sort of rule_infos")
     return out
 
 def emit(facts):
@@ -187,6 +216,8 @@ def emit(facts):
     L.append("Definition sf_regex_contextual : list bool := [" + "; ".join("true" if c else "false" for _, _, c in rules) + "].")
     L.append("Definition sf_unguarded_writes : list (list nat) := [" + "; ".join(coq_ident(n) for n in facts["unguarded_writes"]) + "].")
     L.append(f"Definition sf_verbose_reads_outside_guards : nat := {facts['verbose_reads_not_guard']}.")
+    L.append(f"Definition sf_cb_word_bits : nat := {facts['cb_word_bits']}.")
+    L.append(f"Definition sf_cb_check_idx_calls : nat := {facts['cb_check_idx_calls']}.")
     return "\n".join(L) + "\n"
 
 if __name__ == "__main__":
